@@ -400,6 +400,9 @@ func runWorkerProducers(a *Analyzer, r *Results) {
 }
 
 func runR3(a *Analyzer, r *Results) {
+	runRecoverVerdict(a, r)
+	runQuorumWrapper(a, r)
+	runCommitThenRound(a, r)
 	runMutableState(a, r)
 	runWorkerProducers(a, r)
 	runTermEntry(a, r)
@@ -1293,7 +1296,7 @@ func runStorageSlots(a *Analyzer, r *Results) {
 				}
 			}
 		}
-		r.Check("ST.slot", props("C01", "C03", "C05", "C09", "C10", "C11"), "every accessor of the in-memory message log touches only the log its name says (proposals / PREPAREs / COMMITs / votes are never mixed: a commit quorum is counted on COMMITs) and uses each of its (height, view, hash) parameters as a key of that log", f.Name(), a.P.Pos(f.Pos()), why == "", why, "D")
+		r.Check("ST.slot", props("C01", "C03", "C05", "C09", "C10", "C11", "C20"), "every accessor of the in-memory message log touches only the log its name says (proposals / PREPAREs / COMMITs / votes are never mixed: a commit quorum is counted on COMMITs) and uses each of its (height, view, hash) parameters as a key of that log", f.Name(), a.P.Pos(f.Pos()), why == "", why, "D")
 	}
 	if n == 0 {
 		r.Undecided = append(r.Undecided, "no accessor of InMemoryStorage found (ST.slot anchor)")
@@ -1464,7 +1467,7 @@ func runInPlace(a *Analyzer, r *Results) {
 					}
 					if fo, what := foreign(base, map[ssa.Value]bool{}); fo {
 						n++
-						r.Check("A1.inplace", props("C09", "C07", "C11", "C17"), "a slice received from somebody else (parameter, field, call result) is never compacted or filtered in place: appending through a reslice of it (s[:0], s[:n]) overwrites the elements its owner still reads", shortName(f), a.P.InstrPos(in), false,
+						r.Check("A1.inplace", props("C09", "C07", "C11", "C17", "C20"), "a slice received from somebody else (parameter, field, call result) is never compacted or filtered in place: appending through a reslice of it (s[:0], s[:n]) overwrites the elements its owner still reads", shortName(f), a.P.InstrPos(in), false,
 							"append through a reslice of "+what+" rewrites the backing array shared with its owner", "W")
 					}
 				case *ssa.Store:
@@ -1475,7 +1478,7 @@ func runInPlace(a *Analyzer, r *Results) {
 					if fo, what := foreign(ia.X, map[ssa.Value]bool{}); fo {
 						if _, isParam := ia.X.(*ssa.Parameter); isParam || strings.HasPrefix(what, "the result") || what == "a field" || strings.HasPrefix(what, "parameter") {
 							n++
-							r.Check("A1.inplace", props("C09", "C07", "C11", "C17"), "a slice received from somebody else (parameter, field, call result) is never compacted or filtered in place: appending through a reslice of it (s[:0], s[:n]) overwrites the elements its owner still reads", shortName(f), a.P.InstrPos(in), false,
+							r.Check("A1.inplace", props("C09", "C07", "C11", "C17", "C20"), "a slice received from somebody else (parameter, field, call result) is never compacted or filtered in place: appending through a reslice of it (s[:0], s[:n]) overwrites the elements its owner still reads", shortName(f), a.P.InstrPos(in), false,
 								"element store into "+what+" rewrites the slice its owner still reads", "W")
 						}
 					}
@@ -1484,7 +1487,7 @@ func runInPlace(a *Analyzer, r *Results) {
 		}
 	}
 	if n == 0 {
-		r.Check("A1.inplace", props("C09", "C07", "C11", "C17"), "a slice received from somebody else (parameter, field, call result) is never compacted or filtered in place: appending through a reslice of it (s[:0], s[:n]) overwrites the elements its owner still reads", "none", a.P.Pos(a.P.Func("services/termincommittee.NewTermInCommittee").Pos()), true, "", "W")
+		r.Check("A1.inplace", props("C09", "C07", "C11", "C17", "C20"), "a slice received from somebody else (parameter, field, call result) is never compacted or filtered in place: appending through a reslice of it (s[:0], s[:n]) overwrites the elements its owner still reads", "none", a.P.Pos(a.P.Func("services/termincommittee.NewTermInCommittee").Pos()), true, "", "W")
 	}
 }
 
